@@ -247,6 +247,32 @@ static void exec(const Label &lb, Result &r) {
       v.assign({src[0]});
     else
       v.assign({src[0], src[1]});
+  } else if (op == "assignOpIlist") {
+    if (src.size() == 0)
+      v = std::initializer_list<E>();
+    else if (src.size() == 1)
+      v = {src[0]};
+    else
+      v = {src[0], src[1]};
+  } else if (op == "setIndex") {
+    v[static_cast<SZ>(lb.n)].v = lb.v;
+  } else if (op == "setAt") {
+    v.at(static_cast<SZ>(lb.n)).v = lb.v;
+  } else if (op == "setFront") {
+    v.front().v = lb.v;
+  } else if (op == "setBack") {
+    v.back().v = lb.v;
+  } else if (op == "setData") {
+    v.data()[lb.n].v = lb.v;
+  } else if (op == "setIter") {
+    (v.begin() + lb.n)->v = lb.v;
+  } else if (op == "setRIter") {
+    (v.rbegin() + (static_cast<long>(v.size()) - 1 - lb.n))->v = lb.v;
+  } else if (op == "maxSize") {
+    unsigned long long mx = static_cast<unsigned long long>(cv.max_size());
+    r.val(mx > 2000000000ULL ? 2000000000L : static_cast<long>(mx));
+  } else if (op == "freeSwap") {
+    amc::swap(v, *g_slot[d]);
   } else if (op == "assignN") {
     v.assign(static_cast<SZ>(lb.n), *arg);
   } else if (op == "assignRange") {
